@@ -806,6 +806,8 @@ package vanguard
 // variable-match slice it returns.
 //@ func (*routeTrie).match
 //@   requires t != nil
+//@   atcall[C06] (*routeTrie).findTarget: arg(0) == t && arg(3) == httpMethod
+//@   atcall[C06] (*routeTrie).findTarget: forall k in [0, len(arg(2))): arg(2)[k] != 47
 //@   ensures[C06] r0 != nil ==> r0.method == httpMethod || r0.method == "*"
 //@   modifies
 
@@ -1136,3 +1138,15 @@ package vanguard
 // RPC-style paths: the method table is keyed by each method's own path.
 //@ pred methodsOK(t) = t != nil && (forall k in string: t.methods != nil && has(t.methods, k) && t.methods[k] != nil ==> t.methods[k].methodPath == k)
 //@ typeinv Transcoder methodsOK except NewTranscoder, (*Transcoder).registerMethod, (*Transcoder).registerService, (*Transcoder).registerRules, (*Transcoder).addRule
+
+// ------------------------------------------------------------------------------------------------
+// C03: declared response compression matches the bytes. Error bodies of the unary client protocols
+// (REST, Connect unary) are written uncompressed, so an error response must not announce an encoding
+// the transcoder did not apply.
+//@ func (restClientProtocol).addProtocolResponseHeaders
+//@   requires headers != nil
+//@   ensures[C03] meta.end != nil && meta.end.err != nil ==> hdrHas(headers, "Content-Encoding") == old(hdrHas(headers, "Content-Encoding"))
+//@   ensures[C03] !(meta.end != nil && meta.end.err != nil) && meta.compression != "" ==> hdr(headers, "Content-Encoding") == meta.compression
+//@   ensures[C03] !old(hdrHas(headers, "Content-Type")) ==> hdr(headers, "Content-Type") == "application/" + meta.codec
+//@   ensures[C05] hdrSameExcept(headers, "Content-Type", "Content-Encoding", "Accept-Encoding")
+//@   modifies mapobj(headers), #LIB0
